@@ -223,10 +223,14 @@ pub fn mutate_field(doc: &Value, pointer: &str, p: &mut Prng) -> Option<(Value, 
 /// function, so nothing but the version check can reject it.
 pub fn foreign_version_interface(bytes: &[u8], p: &mut Prng) -> Option<Vec<u8>> {
     let mut unit: compiler::artifact::InterfaceUnit = serde_json::from_slice(bytes).ok()?;
-    if p.chance(1, 2) {
-        unit.format_version += 1 + p.below(3) as u32;
-    } else {
-        unit.compiler_abi += 1 + p.below(7) as u32;
+    match p.below(4) {
+        0 => unit.format_version += 1 + p.below(3) as u32,
+        1 => unit.compiler_abi += 1 + p.below(7) as u32,
+        // written by an *older* release
+        2 if unit.format_version > 0 => unit.format_version -= 1,
+        2 => unit.format_version += 1,
+        _ if unit.compiler_abi > 0 => unit.compiler_abi -= 1,
+        _ => unit.compiler_abi += 1,
     }
     unit.interface_hash = unit.compute_hash();
     serde_json::to_string_pretty(&unit).ok().map(|s| s.into_bytes())
@@ -236,9 +240,16 @@ pub fn foreign_version_interface(bytes: &[u8], p: &mut Prng) -> Option<Vec<u8>> 
 /// interface (with its hash recomputed).
 pub fn foreign_version_core(bytes: &[u8], p: &mut Prng) -> Option<(Vec<u8>, &'static str)> {
     let mut unit: compiler::artifact::CoreUnit = serde_json::from_slice(bytes).ok()?;
-    let which = if p.chance(1, 2) {
+    let which = if p.chance(1, 3) {
         unit.format_version += 1;
         "core-version-fields"
+    } else if p.chance(1, 2) && unit.format_version > 0 && unit.interface.format_version > 0 {
+        // a complete, self-consistent artifact of an older release: every version field lowered
+        // together, hash recomputed
+        unit.format_version -= 1;
+        unit.interface.format_version -= 1;
+        unit.interface.interface_hash = unit.interface.compute_hash();
+        "all-version-fields-of-an-older-release"
     } else {
         unit.interface.compiler_abi += 6;
         unit.interface.format_version += 1;
